@@ -1,11 +1,14 @@
 #!/bin/bash
-# development aid: every seeded defect against its own property (E2 part), in parallel on scratch worktrees /var/tmp/repo-x<i>; prints those NOT reported as violated
+# every seeded defect against its own property, in parallel on scratch worktrees /var/tmp/repo-x<i>; prints those NOT reported as violated.
+# default: E2 part only (development aid).  FULL=1: the complete quick check incl. Kani (use few workers: FULL=1 tools/seed_cross.sh 3) and
+# seeded/RESULTS.md is rewritten from the outcome.
 N=${1:-8}
 cd /verif
-export VERIF_DEV_NO_KANI=1
+[ -n "$FULL" ] || export VERIF_DEV_NO_KANI=1
 ls -d seeded/*/ | sed 's#seeded/##; s#/##' > /tmp/seed_cross.list
+rm -f /tmp/seed_cross_[0-9]*.log
 for i in $(seq 1 $N); do
-  wt=/var/tmp/repo-x$i
+  wt=/var/tmp/${WT_PREFIX:-repo-x}$i
   [ -d $wt ] || { git -C /repo worktree add --detach $wt HEAD -q; cp /repo/Cargo.lock $wt/; }
   (
     export ANEMO_REPO=$wt VERIF_EVIDENCE_DIR=/var/tmp/anemo-verif-matrix/ev$i VERIF_REPLAY_DIR=/var/tmp/anemo-verif-matrix/rp$i
@@ -21,5 +24,11 @@ for i in $(seq 1 $N); do
   ) > /tmp/seed_cross_$i.log 2>&1 &
 done
 wait
-cat /tmp/seed_cross_*.log | sort | grep -v "rc=1 " 
-echo "seed cross-check finished: $(cat /tmp/seed_cross_*.log | grep -c 'rc=1 ') of $(wc -l < /tmp/seed_cross.list) reported as violations (E2 only)"
+cat /tmp/seed_cross_[0-9]*.log | sort | grep -v "rc=1 " 
+if [ -n "$FULL" ]; then
+  out=seeded/RESULTS.md
+  echo "# Seeded defects vs checks (quick tier incl. Kani, $(date -u +%F)); expected: exit 1 with a VIOLATION line" > $out
+  echo "" >> $out; echo "| seed | exit | first reporting obligation |" >> $out; echo "|---|---|---|" >> $out
+  cat /tmp/seed_cross_[0-9]*.log | sort | sed -E 's/^(\S+) rc=([0-9]+) ?(.*)$/| \1 | \2 | \3 |/' | tr -s ' ' >> $out
+fi
+echo "seed cross-check finished: $(cat /tmp/seed_cross_[0-9]*.log | grep -c 'rc=1 ') of $(wc -l < /tmp/seed_cross.list) reported as violations"
